@@ -937,7 +937,23 @@ impl Worterbuch {
 
         let path: Vec<KeySegment> = KeySegment::parse(&pattern);
 
-        let (deleted, ls_subscribers) = self.store.delete_matches(&path)?;
+        // A wildcard in the first segment stands for the top level keys outside of $SYS: only
+        // patterns that name $SYS literally pass the read-only check above for what they match.
+        let paths = match path.as_slice() {
+            [KeySegment::Wildcard, tail @ ..] => self.user_root_paths(tail),
+            [KeySegment::MultiWildcard] => self.user_root_paths(&path),
+            _ => vec![path],
+        };
+
+        let mut deleted = vec![];
+        let mut ls_subscribers: Option<Vec<_>> = None;
+        for path in paths {
+            let (del, ls_subs) = self.store.delete_matches(&path)?;
+            deleted.extend(del);
+            if let Some(ls_subs) = ls_subs {
+                ls_subscribers.get_or_insert_default().extend(ls_subs);
+            }
+        }
 
         for kvp in &deleted {
             self.persistent_storage
@@ -962,6 +978,20 @@ impl Worterbuch {
         mem_tools::schedule_trim();
 
         Ok(deleted)
+    }
+
+    /// One path for every top level key segment other than $SYS, followed by `tail`.
+    fn user_root_paths(&self, tail: &[KeySegment]) -> Vec<Vec<KeySegment>> {
+        self.store
+            .ls_root()
+            .into_iter()
+            .filter(|child| child != SYSTEM_TOPIC_ROOT)
+            .map(|child| {
+                let mut path = vec![KeySegment::Regular(child)];
+                path.extend_from_slice(tail);
+                path
+            })
+            .collect()
     }
 
     pub async fn lock(&mut self, key: Key, client_id: ClientId) -> WorterbuchResult<()> {
